@@ -32,7 +32,7 @@ def run(tier: str) -> int:
     post3 = [("add", "x==3"), ("add", "x<u5"), ("add", "y>u6"), ("eval", "x", 9, "none"), ("beval", "x,y", 9, "none"), ("max", "x", "u", "none"), ("min", "x", "s", "none"), ("sat", "none"), ("simplify",), ("downsize",)]
     pre4 = [("add", "x+y==3"), ("add", "z!=0"), ("eval", "x+z", 9, "none"), ("eval", "u", 9, "none"), ("max", "x+y", "u", "none"), ("sat", "none")]
     post4 = [("add", "x==1"), ("add", "y==z"), ("add", "u==z+1"), ("eval", "x+z", 9, "none"), ("eval", "x", 9, "none"), ("max", "x+y", "u", "none"), ("max", "y+u", "s", "none"), ("sat", "none"), ("simplify",), ("downsize",)]
-    if tier == "quick":
+    if True:
         q_pre3 = [("add", "x!=0"), ("add", "x+y==5"), ("eval", "x", 9, "none"), ("max", "x", "u", "none")]
         q_post3 = [("add", "x==3"), ("add", "x<u5"), ("eval", "x", 9, "none"), ("max", "x", "u", "none"), ("sat", "none"), ("simplify",)]
         q_pre4 = [("add", "x+y==3"), ("eval", "x+z", 9, "none"), ("max", "x+y", "u", "none"), ("eval", "u", 9, "none")]
@@ -54,18 +54,15 @@ def run(tier: str) -> int:
             ("bv3", "SolverReplacementVSA", {"approx": True}, [("add", "x<u5"), ("add", "x!=0"), ("max", "x", "u", "none")], vsa_post, 2, 3, 1, ""),
             ("bv3", "SolverHybrid", {"exact_false": True, "approx": True}, [("add", "x<u5"), ("max", "x", "u", "none")], vsa_post, 1, 3, 1, "exact=False"),
         ]
-    else:
-        plan = [
-            ("bv3", "Solver", {}, pre3, post3, 2, 4, 1, ""),
-            ("bv3", "Solver", {}, pre3[:4], post3[:8], 2, 3, 2, "forks2"),
-            ("bv3", "Solver", {"reuse": True}, pre3, post3, 2, 3, 1, "reuse"),
-            ("bv3", "SolverCacheless", {}, pre3, post3, 2, 4, 1, ""),
-            ("bv2x4", "SolverComposite", {}, pre4, post4, 2, 4, 1, ""),
-            ("bv2x4", "SolverComposite", {}, pre4, post4[:8], 2, 3, 2, "forks2"),
-            ("bv3", "SolverHybrid", {}, pre3, post3, 2, 3, 1, ""),
-            ("bv3", "SolverHybrid", {"exact_false": True, "approx": True}, pre3, post3, 2, 3, 1, "exact=False"),
-            ("bv3", "SolverReplacement", {}, pre3, post3, 2, 3, 1, ""),
-            ("bv3", "SolverReplacementVSA", {"approx": True}, pre3, post3, 2, 3, 1, ""),
+    if tier == "thorough":
+        # the same configurations with one more prefix event, plus the larger alphabets at moderate depth and solver reuse
+        # (interleavings of 4 events over two members with the 10-event alphabets would take days)
+        plan = [(u, c_, g, pre, post, pd + 1, qd, mf, tag) for (u, c_, g, pre, post, pd, qd, mf, tag) in plan]
+        plan += [
+            ("bv3", "Solver", {}, pre3, post3, 2, 2, 1, "full-alphabet"),
+            ("bv3", "SolverCacheless", {}, pre3, post3, 2, 2, 1, "full-alphabet"),
+            ("bv2x4", "SolverComposite", {}, pre4, post4, 2, 2, 1, "full-alphabet"),
+            ("bv3", "Solver", {"reuse": True}, q_pre3, q_post3, 2, 3, 1, "reuse"),
         ]
     for uni, cls, cfg, pre, post, pd, qd, mf, tag in plan:
         t0 = time.time()
